@@ -163,7 +163,7 @@ func vjcRun[N constraints.Unsigned](t *testing.T, width string, res *vResult, be
 func TestVerifValidateCommit(t *testing.T) {
 	res := vNewResult("C19")
 	defer res.Write(t)
-	behs := vLoad(t, vIn(t, "behaviours.txt"))
+	behs := vLoad(t, vIn(t, vEnvStr("VERIF_INPUT", "behaviours.txt")))
 	res.Behaviours = len(behs)
 	rng := rand.New(rand.NewSource(vSeed()))
 	maxAll, randomN := 4, 20
@@ -196,15 +196,22 @@ func TestVerifValidateCommit(t *testing.T) {
 				sum[id] += uint64(v[1])
 				ws = append(ws, IDWeight[string]{ID: id, Weight: uint64(v[1])})
 			}
+			// the voter-set laws (weights of a repeated id are summed, the total is the sum of all entries, the threshold is
+			// derived from that total) are the premise of C19's verdicts and of C22's "more than two thirds of the weight";
+			// they are reported under whichever of the two is being checked
+			vsOwner := "C19"
+			if vEnvStr("VERIF_PROP", "") == "C22" {
+				vsOwner = "C22"
+			}
 			var vs *VoterSet[string]
 			if pm := vTry(func() { vs = NewVoterSet(ws) }); pm != "" || vs == nil {
-				res.Fail(b.ID, ci, "NewVoterSet", "result", "a voter set", "nil / "+pm, "C19/NewVoterSet/panic-or-nil", []json.RawMessage{raw})
+				res.Fail(b.ID, ci, "NewVoterSet", "result", "a voter set", "nil / "+pm, vsOwner+"/NewVoterSet/panic-or-nil", []json.RawMessage{raw})
 				continue
 			}
 			res.Cmp()
 			if uint64(vs.TotalWeight()) != uint64(cs.Res.Total) || uint64(vs.Threshold()) != uint64(cs.Res.Thr) {
 				res.Fail(b.ID, ci, "NewVoterSet", "total/threshold", fmt.Sprintf("%d/%d", cs.Res.Total, cs.Res.Thr),
-					fmt.Sprintf("%d/%d", vs.TotalWeight(), vs.Threshold()), "C19/NewVoterSet/total-or-threshold", []json.RawMessage{raw})
+					fmt.Sprintf("%d/%d", vs.TotalWeight(), vs.Threshold()), vsOwner+"/NewVoterSet/total-or-threshold", []json.RawMessage{raw})
 			}
 			for id, wsum := range sum {
 				res.Cmp()
@@ -218,9 +225,12 @@ func TestVerifValidateCommit(t *testing.T) {
 					if dupVoter {
 						cls = "voter-listed-twice/weight-not-summed"
 					}
-					res.Fail(b.ID, ci, "NewVoterSet", "weight of "+id, fmt.Sprint(wsum), got, "C19/NewVoterSet/"+cls, []json.RawMessage{raw})
+					res.Fail(b.ID, ci, "NewVoterSet", "weight of "+id, fmt.Sprint(wsum), got, vsOwner+"/NewVoterSet/"+cls, []json.RawMessage{raw})
 					break
 				}
+			}
+			if vEnvStr("VJC_ONLY_VOTERSET", "") == "1" {
+				continue
 			}
 			// ---- the commit, both number widths, many orders ----------------------
 			orders := vjcOrders(len(cs.O.Es), rng, maxAll, randomN)
